@@ -56,6 +56,8 @@ class SObj(Model):
         # element values are never BlockSeries / tuples / lists
         if clsname in ("BlockSeries", "tuple", "list", "int", "slice"):
             return False
+        if self is ZERO or self is ONE or self is PENDING:
+            return False    # the sentinel singletons are instances of their own classes only
         raise Unsupported(f"isinstance(element value, {clsname})")
 
     def m_unop(self, eng, op):
